@@ -914,8 +914,26 @@ def model_cmd(call) -> str | None:
     if k in ('mul', 'imul'):
         return f'{k} {call[1]}'
     if k == 'fold':
-        return 'fold ' + fmt(call[1])
+        return fold_cmd() + ' ' + fmt(call[1])
     return None
+
+
+_FOLD_MODE = None
+
+
+def fold_cmd() -> str:
+    """Which straighten does the implementation under test run?  Decided once on the D6 witness: the current
+    algorithm leaves an idle cycle there (model command `fold`), the repaired one of fixes/D6.patch does not
+    (`foldx` = CFold.fold_x true).  Either way the model is then compared on every fold call."""
+    global _FOLD_MODE
+    if _FOLD_MODE is None:
+        X = (0, 2, (0,), (92,), (2,), ())
+        pre = (6, (2,) * 6, ((X, (0, 10, (2, 4, 1), (), (2, 2, 2), ()), (0, 3, (5,), (23, 4, 17), (2,), ())),
+                             ((0, 4, (1, 3), (), (2, 2), ()),), ((0, 4, (3, 0), (), (2, 2), ()),)))
+        c = circ_from_snap_exact(pre)
+        apply_impl(c, ('fold', ((0, (0, 2)), (3, (2, 2)))))
+        _FOLD_MODE = 'fold' if any(not cy for cy in snap(c)[2]) else 'foldx'
+    return _FOLD_MODE
 
 
 def circ_from_snap_exact(s) -> Circuit:
